@@ -488,6 +488,15 @@ impl Runtime {
             .unblock_runtimes_blocked_on_transferred_queries_owned_by(database_key, wait_result);
     }
 
+    /// Re-points the threads blocked on the transferred `query` (or on a query it owns) at the
+    /// thread that `query`'s transfer chain resolves to.
+    #[cold]
+    pub(super) fn repoint_transferred_dependents(&self, query: DatabaseKeyIndex) {
+        self.dependency_graph
+            .lock()
+            .repoint_transferred_dependents(query);
+    }
+
     /// Removes the ownership transfer of `query`'s lock if it exists.
     ///
     /// If `query` has transferred its lock ownership to another query, this function will remove that transfer,
